@@ -243,7 +243,8 @@ def stack(images: list[darsia.Image]) -> darsia.Image:
         darsia.Image: stackes image
 
     """
-    image = images[0]
+    # NOTE: Do not modify the first image.
+    image = images[0].copy()
     for i in range(1, len(images)):
         image.append(images[i])
 
